@@ -391,7 +391,7 @@ def run_impl_resume_json(case: dict, hooks: Optional[Hooks] = None, keep: Option
     return obs
 
 
-def run_impl_steps(case: dict, hooks: Optional[Hooks] = None) -> dict:
+def run_impl_steps(case: dict, hooks: Optional[Hooks] = None, keep: Optional[dict] = None, finish: bool = False) -> dict:
     """Drive the real simulator with `Simulator.step(schedule)` instead of `run()`: one call per
     entry of case["steps"] (a list of <sched>); stops at the first call that raises.  The
     observation carries "step_results": [[err|None, returned flag|None, iteration after the call]]."""
@@ -408,9 +408,12 @@ def run_impl_steps(case: dict, hooks: Optional[Hooks] = None) -> dict:
             except Exception as e:  # noqa: BLE001
                 results.append([err_name(e), None, int(sim.iteration)])
                 break
-        obs = observe(sim, ctx, None)
+        err2 = run_sim(sim) if (finish and err is None) else None     # finish=True: the rest of the simulation through run()
+        obs = observe(sim, ctx, err2)
         obs["step_results"] = results
         obs["noise_draws"] = ns["k"]
+        if keep is not None:
+            keep["sim"], keep["ctx"] = sim, ctx
     return obs
 
 
